@@ -31,7 +31,7 @@ ID = "C29"
 LEVEL = "exploration"
 TIERS = {
   "quick": {"runs": 48, "chunk": 3, "budget_s": 400, "timeout_s": 400},
-  "thorough": {"runs": 960, "chunk": 8, "budget_s": 3300, "timeout_s": 600},
+  "thorough": {"runs": 192, "chunk": 3, "budget_s": 1800, "timeout_s": 600},
 }
 RULE = ("one evaluation = one clause instance on one (world, tree, step) of a seeded history (60-220 steps) of a multi-tree scene with "
         "sleeping enabled; histories alternate quiet phases with kicks, applied forces on (possibly sleeping) trees and pushes by awake "
